@@ -163,7 +163,8 @@ pub fn write_float_negative_exponent<F: DragonboxFloat, const FORMAT: u128>(
 
     // Truncate and round the significant digits.
     debug_assert!(cursor > 0, "underflowed our digits");
-    let (digit_count, carried) = shared::truncate_and_round_decimal(digits, digit_count, options);
+    let (mut digit_count, carried) =
+        shared::truncate_and_round_decimal(digits, digit_count, options);
 
     // Handle any trailing digits.
     let mut trimmed = false;
@@ -178,6 +179,8 @@ pub fn write_float_negative_exponent<F: DragonboxFloat, const FORMAT: u128>(
             bytes[1] = decimal_point;
             bytes[2] = b'0';
             cursor = 3;
+            // The `0` is a written digit: count it when padding to the minimum.
+            digit_count += 1;
         }
     } else if carried {
         // Carried, so we need to remove 1 zero before our digits.
